@@ -1051,10 +1051,15 @@ fn twin_case(kind: usize, alpha: i64, beta: i64) -> Option<Outcome> {
     }
     let sem = Sem { atoms: atoms.clone(), delta, fin, n_base: n, n_clones: 0, n_unreachable: 0 };
     let mut calls: Vec<Call> = Vec::new();
-    // first mention of every state in index order (the real default follows and replaces this one)
+    // first mention of every state in index order, through an extra (unreachable) state X = n that has one
+    // transition to each of them: builder ids are then label + 1 for every label >= 1 (differences between
+    // ids, which is what the perturbations are about, are those of the labels). No call is ever repeated
+    // or overridden.
+    let x = n as u32;
     for i in 0..n as u32 {
-        calls.push(Call::Default(i, i));
+        calls.push(Call::Trans(x, (0x1000 + i, 0x1000 + i), i));
     }
+    calls.push(Call::Default(x, x));
     for i in 0..n {
         for x in 0..k - 1 {
             calls.push(Call::Trans(i as u32, atoms.atoms[x], sem.delta[i][x] as u32));
@@ -1256,15 +1261,17 @@ pub fn enumerate_c13(_thorough: bool, part: usize, parts: usize, sink: &mut crat
     // targets whose ids agree modulo 64 (and modulo 256 for the larger ones)
     for &(n, ref targets) in &[(70u32, vec![1u32, 65]), (140, vec![2, 66, 130]), (300, vec![3, 259]), (600, vec![5, 261, 517]), (70, vec![1, 2])] {
         let mut calls: Vec<Call> = Vec::new();
+        // first mention in index order through an extra state X = n + 1 with one transition to every label
+        // (nothing is declared twice): builder ids are label + 2
+        let init = n;
+        let x = n + 1;
         for i in 0..n {
-            calls.push(Call::Default(i, i)); // first mention in index order: builder ids = labels
+            calls.push(Call::Trans(x, (0x1000 + i, 0x1000 + i), i));
         }
-        for i in 1..n {
+        calls.push(Call::Default(x, x));
+        for i in 0..n {
             calls.push(Call::Default(i, (i + 1) % n));
         }
-        // state 0: replace the provisional default by a full tiling? A declared default cannot be withdrawn,
-        // so state 0 is a fresh label n (the initial state), mentioned last
-        let init = n;
         let cuts: Vec<u32> = (0..targets.len() as u32).map(|j| j * 100).collect();
         for (j, &tg) in targets.iter().enumerate() {
             let lo = cuts[j];
